@@ -20,8 +20,44 @@ static std::string O(std::function<double()> f) {
 }
 typedef RandomTools R;
 
+// exploration: one evaluator for every public function (unused arguments are ignored);
+// a suffix `@tag` of the function name only labels the scenario
+static double eval(const std::string& f0, double a, double b, double c) {
+  const std::string f = f0.substr(0, f0.find('@'));
+  if (f == "pnorm") return R::pNorm(a);
+  if (f == "qnorm") return R::qNorm(a);
+  if (f == "pnorm3") return R::pNorm(a, b, c);
+  if (f == "qnorm3") return R::qNorm(a, b, c);
+  if (f == "pgamma") return R::pGamma(a, b, c);
+  if (f == "qgamma") return R::qGamma(a, b, c);
+  if (f == "pchisq") return R::pChisq(a, b);
+  if (f == "qchisq") return R::qChisq(a, b);
+  if (f == "pbeta") return R::pBeta(a, b, c);
+  if (f == "qbeta") return R::qBeta(a, b, c);
+  if (f == "ig") return R::incompleteGamma(a, b, c);
+  if (f == "lnbeta") return R::lnBeta(a, b);
+  if (f == "lngamma") return R::lnGamma(a);
+  throw std::runtime_error("unknown function");
+}
+static std::string E(const std::string& f, double a, double b, double c) { return O([&] { return eval(f, a, b, c); }); }
+
 static std::string op(const Toks& t) {
   const std::string& o = t[0];
+  // ---- exploration
+  if (o == "x.acc") return E(t[2], D(t[5]), D(t[6]), D(t[7]));
+  if (o == "x.lin2") return E(t[5], D(t[6]), D(t[7]), D(t[8])) + " " + E(t[10], D(t[11]), D(t[12]), D(t[13]));
+  if (o == "x.mono") return E(t[1], D(t[3]), D(t[4]), D(t[5])) + " " + E(t[1], D(t[6]), D(t[7]), D(t[8]));
+  if (o == "x.inv") {
+    // q = qX(p), then pX at q and at the two floating-point neighbours of q (within the support):
+    // q is as good as a double can be when the neighbours' cdf values bracket p
+    const std::string& fam = t[1]; double p = D(t[3]), a = D(t[4]), b = D(t[5]);
+    std::string q = E("q" + fam, p, a, b);
+    if (q == "exc:bpp" || q == "nan") return q + " " + q + " " + q + " " + q;
+    double qv = D(q), lo = std::nextafter(qv, -INFINITY), hi = std::nextafter(qv, INFINITY);
+    if (fam == "beta") { if (lo < 0) lo = 0; if (hi > 1) hi = 1; }
+    if (fam == "gamma" || fam == "chisq") { if (lo < 0) lo = 0; }
+    return q + " " + E("p" + fam, qv, a, b) + " " + E("p" + fam, lo, a, b) + " " + E("p" + fam, hi, a, b);
+  }
   // ---- normal
   if (o == "pnorm") { double z = D(t[1]); return O([&] { return R::pNorm(z); }); }
   if (o == "qnorm") { double p = D(t[1]); return O([&] { return R::qNorm(p); }); }
